@@ -27,6 +27,7 @@
 #include "ref/resp.hpp"
 #include <cstring>
 #include <algorithm>
+#include <functional>
 
 using namespace vf;
 
@@ -55,13 +56,15 @@ struct Sub {            // a submitted message
 	bool on_wire = false;
 	uint64_t t_wire = 0;
 };
-struct OutP { uint8_t type; int size; uint64_t t; bool credited; };
+struct OutP { uint8_t type; int size; uint64_t t; };
+struct Tok { uint8_t type; uint64_t t; };          // an uplink message of the node (a possible answer)
 struct OutQ { uint8_t type; int size; uint64_t t; };
 struct Node {
 	ref::Bytes addr;
 	std::vector<Sub> subs;
 	size_t wire_count = 0;        // number of subs on the wire (always a prefix)
-	std::vector<OutP> p;          // permissive model
+	std::vector<OutP> p;          // permissive model: every request that reached the wire ...
+	std::vector<Tok> toks;        // ... and every uplink message that may have credited one of them
 	std::deque<OutQ> q;           // FIFO model
 	bool stalled = false;
 	uint8_t last_rx = 0;
@@ -117,10 +120,30 @@ void flow_prop(DP &dp, const ref::Bytes &sched, Ctx &ctx, bool with_stall) {
 			if (a.stalled && a.addr.size() <= n.addr.size() && std::equal(a.addr.begin(), a.addr.end(), n.addr.begin())) return true;
 		return false;
 	};
+	// Permissive bound: the requests not yet expired at `now` minus the most valuable set of them that the node's uplink
+	// messages so far can have credited under ANY assignment (a message credits at most one request that was submitted
+	// before it arrived and accepts its type). Which request an answer credits depends on when the receiver thread gets to
+	// it (an older request may expire first when the second rolls over in between), so no particular assignment is
+	// demanded. Requests are the elements of a transversal matroid: greedy by size with augmenting paths is optimal.
 	auto psum = [&](Node &n, uint64_t now) {
-		int sum = 0;
+		std::vector<const OutP *> live;
 		for (auto &o : n.p)
-			if (!o.credited && sec(now) - sec(o.t) < 2) sum += o.size;
+			if (sec(now) - sec(o.t) < 2) live.push_back(&o);
+		std::stable_sort(live.begin(), live.end(), [](const OutP *a, const OutP *b) { return a->size > b->size; });
+		std::vector<int> owner(n.toks.size(), -1);
+		std::function<bool(int, std::vector<char> &)> aug = [&](int e, std::vector<char> &seen) {
+			for (size_t k = 0; k < n.toks.size(); k++) {
+				if (seen[k] || n.toks[k].t < live[(size_t) e]->t || !accepts(live[(size_t) e]->type, n.toks[k].type)) continue;
+				seen[k] = 1;
+				if (owner[k] < 0 || aug(owner[k], seen)) { owner[k] = e; return true; }
+			}
+			return false;
+		};
+		int sum = 0;
+		for (size_t e = 0; e < live.size(); e++) {
+			std::vector<char> seen(n.toks.size(), 0);
+			if (!aug((int) e, seen)) sum += live[e]->size;
+		}
 		return sum;
 	};
 	auto qexpire = [&](Node &n, uint64_t now) {
@@ -167,7 +190,7 @@ void flow_prop(DP &dp, const ref::Bytes &sched, Ctx &ctx, bool with_stall) {
 				}
 				n->wire_count++;
 				if (sb.size > 0) {
-					n->p.push_back({sb.m.type, sb.size, sb.t_sub, false});
+					n->p.push_back({sb.m.type, sb.size, sb.t_sub});
 					n->q.push_back({sb.m.type, sb.size, now});
 				}
 			}
@@ -260,12 +283,7 @@ void flow_prop(DP &dp, const ref::Bytes &sched, Ctx &ctx, bool with_stall) {
 			ctx.desc << "  t=" << vf_now_us() / 1000 << "ms rx from " << (n.addr.empty() ? "0" : hex(n.addr)) << " type=" << std::hex << (int) t << std::dec << " (" << what << ")\n";
 			// reference models
 			uint64_t now = vf_now_us();
-			{   // permissive: credit the largest un-credited, un-expired request accepting t
-				OutP *best = nullptr;
-				for (auto &o : n.p)
-					if (!o.credited && sec(now) - sec(o.t) < 2 && accepts(o.type, t) && (!best || o.size > best->size)) best = &o;
-				if (best) best->credited = true;
-			}
+			n.toks.push_back({t, now});          // permissive model: may credit any one request submitted before now
 			{   // FIFO: expire stale heads, then the head is credited if it accepts t
 				size_t qb = n.q.size();
 				qexpire(n, now);
@@ -352,11 +370,7 @@ void flow_prop(DP &dp, const ref::Bytes &sched, Ctx &ctx, bool with_stall) {
 			qexpire(n, vf_now_us());
 			if (!n.q.empty()) {
 				uint8_t t = ref::RESP[n.q.front().type & 0x7f].ans[0];
-				uint64_t now = vf_now_us();
-				OutP *best = nullptr;
-				for (auto &o : n.p)
-					if (!o.credited && sec(now) - sec(o.t) < 2 && accepts(o.type, t) && (!best || o.size > best->size)) best = &o;
-				if (best) best->credited = true;
+				n.toks.push_back({t, vf_now_us()});
 				n.q.pop_front();
 				ref::Msg m;
 				m.addr = n.addr; m.type = t; m.seq = s.next_up_seq(n.addr); m.data = {0, 0, 0};
